@@ -409,11 +409,15 @@ def nested_cases(draw):
     keys = [f"pipeline.{g}.{nm}.arguments.{leaf}" for g, nm in models for leaf in NESTED_LEAVES]
     ops, npool = [], 1
     for _ in range(draw(st.integers(2, 8))):
-        how = draw(st.sampled_from(["set", "set", "replace", "create_new", "deepcopy"]))
+        how = draw(st.sampled_from(["set", "set", "replace", "create_new", "deepcopy", "bad_set", "bad_replace"]))
         op = {"how": how, "on": draw(st.integers(0, npool - 1))}
         if how != "deepcopy":
             op["key"], op["value"] = draw(st.sampled_from(keys)), draw(st.integers(100, 999))
-        if how != "set":
+        if how.startswith("bad_"):
+            # a misspelt / truncated / wrong-case last component inside the mapping (never an existing entry)
+            head, last = op["key"].rsplit(".", 1)
+            op["key"] = head + "." + draw(st.sampled_from([last + "x", last.upper() if last.upper() != last else last + "_", "x" + last, last + last]))
+        if how not in ("set", "bad_set", "bad_replace"):
             npool += 1
         ops.append(op)
     return {"type": draw(st.sampled_from(["CCD", "CMOS"])), "pipeline": {"groups": groups, "yaml_perm": 0}, "keys": keys, "ops": ops}
@@ -442,8 +446,21 @@ def body_nested(case, rec):
         where = f"op#{i} {how} on processor {j}" + (f" {op['key']} <- {op['value']}" if "key" in op else "")
         rec.cls(f"nested:{how}")
         ok = False
+        if how.startswith("bad_"):
+            rec.cls("nested:invalid_key")
+            try:
+                if how == "bad_set":
+                    pool[j].set(op["key"], op["value"])
+                else:
+                    pool[j].replace({op["key"]: op["value"]})
+                rec.fail(f"invalid_nested_key_accepted[{how}]", f"{where}: no error")
+            except Exception:  # noqa: BLE001
+                pass
+            ok = True
         with rec.must_not_raise(f"valid_nested_key_refused[{how}]"):
-            if how == "set":
+            if how.startswith("bad_"):
+                pass
+            elif how == "set":
                 rec.check(pool[j].has(op["key"]) is True, "has_false_for_valid_key", where)
                 pool[j].set(op["key"], op["value"])
                 model[j][op["key"]] = op["value"]
